@@ -13,7 +13,9 @@ type Gen struct {
 	lines []string
 }
 
-func (g *Gen) add(format string, a ...interface{}) { g.lines = append(g.lines, fmt.Sprintf(format, a...)) }
+func (g *Gen) add(format string, a ...interface{}) {
+	g.lines = append(g.lines, fmt.Sprintf(format, a...))
+}
 
 func (g *Gen) pick(n int) int { return g.r.Intn(n) }
 
@@ -312,6 +314,80 @@ func genRoutes(r *rand.Rand, id string, size int, total int) []string {
 	return g.lines
 }
 
+// genReload: writers that keep writing across restarts. In every round one replica receives from a
+// neighbour (by Sync, announcement or exchange), writes, is restarted (new instance, same keystore and
+// cache, Load), writes again, and then exchanges with the others in both directions — so entries made
+// before and after a reload meet on every replica in different arrival orders.
+func genReload(r *rand.Rand, id string, size int, total int) []string {
+	g := &Gen{r: r}
+	peers := g.r.Perm(total)[:2+g.pick(2)]
+	kind := []string{"kv", "log", "doc"}[g.pick(3)]
+	keys := g.keys(1 + g.pick(2))
+	g.add("scn %s kind=%s acl=%s peers=%s", id, kind, joinInts(peers), joinInts(peers))
+	write := func(p int) {
+		switch kind {
+		case "kv":
+			g.add("put %d %s %s", p, hx(keys[g.pick(len(keys))]), hx(g.value()))
+		case "log":
+			g.add("add %d %s", p, hx(g.value()))
+		case "doc":
+			g.add("docput %d %s %s", p, hx([]byte(fmt.Sprintf("d%d", g.pick(3)))), hx([]byte(fmt.Sprintf("v%d", g.pick(50)))))
+		}
+	}
+	deliver := func(to, from int) {
+		switch g.pick(3) {
+		case 0:
+			g.add("sync %d %d", to, from)
+		case 1:
+			g.add("exchange %d %d", from, to)
+		default:
+			g.add("sync %d %d", to, from)
+		}
+	}
+	rounds := 1 + g.pick(1+size/4)
+	for i := 0; i < rounds; i++ {
+		p := peers[g.pick(len(peers))]
+		q := peers[g.pick(len(peers))]
+		for q == p {
+			q = peers[g.pick(len(peers))]
+		}
+		for k := g.pick(3); k > 0; k-- {
+			write(q)
+		}
+		if g.pick(4) != 0 {
+			deliver(p, q)
+		}
+		for k := g.pick(3); k > 0; k-- {
+			write(p)
+		}
+		if g.pick(3) == 0 {
+			deliver(q, p)
+		}
+		g.add("obs %d", p)
+		g.add("restart %d", p)
+		g.add("obs %d", p)
+		for k := g.pick(3); k > 0; k-- {
+			write(p)
+		}
+		if g.pick(2) == 0 {
+			write(q)
+		}
+		deliver(p, q)
+		deliver(q, p)
+		g.obsAll(peers)
+	}
+	for _, p := range peers {
+		for _, q := range peers {
+			if p != q {
+				g.add("exchange %d %d", p, q)
+			}
+		}
+	}
+	g.obsAll(peers)
+	g.add("final")
+	return g.lines
+}
+
 // genStatus: replication status sampled mid-flight. Several writers build separate branches; one
 // replica is told about their heads one at a time while some fetches are held back at the gate, and is
 // observed after every step; then everything is released.
@@ -381,7 +457,7 @@ func genStatus(r *rand.Rand, id string, size int, total int) []string {
 
 var forgeRecipes = []string{"own", "copiedid", "copiedblock", "foreignkey", "otherlog", "badhash",
 	"mut-payload", "mut-time", "mut-clockid", "mut-next", "mut-refs", "mut-key", "mut-sig",
-	"mut-identid", "mut-identpk", "mut-identsig", "mut-logid", "othertype", "mut-identtype"}
+	"mut-identid", "mut-identpk", "mut-identsig", "mut-logid", "othertype", "mut-identtype", "selfsigned", "mut-identsigpk"}
 
 // genForge: write lists of every shape, non-writers, forged / tampered / foreign entries delivered by
 // every route, alone, mixed with valid heads at any position, or hidden behind a colluding writer's
@@ -389,8 +465,8 @@ var forgeRecipes = []string{"own", "copiedid", "copiedblock", "foreignkey", "oth
 func genForge(r *rand.Rand, id string, size int, total int) []string {
 	g := &Gen{r: r}
 	perm := g.r.Perm(total)
-	att := perm[0]            // the attacker: opens the database but never writes through its store
-	members := perm[1:]       // replicas that use the database normally
+	att := perm[0]      // the attacker: opens the database but never writes through its store
+	members := perm[1:] // replicas that use the database normally
 	kind := []string{"kv", "log"}[g.pick(2)]
 	// write list shape
 	var writers []int
@@ -723,7 +799,7 @@ func genCancel(r *rand.Rand, id string, size int, total int) []string {
 	nreq := 1 + g.pick(3)
 	ctxn := 0
 	for k := 0; k < nreq; k++ {
-		head := 1 + g.pick(n)       // announce some (maybe old) head of the chain
+		head := 1 + g.pick(n) // announce some (maybe old) head of the chain
 		ctxn++
 		ctx := fmt.Sprintf("c%d", ctxn)
 		switch g.pick(6) {
@@ -853,8 +929,8 @@ func genAddress(r *rand.Rand, id string, size int, total int) []string {
 		switch g.pick(4) {
 		case 0:
 			g.add("createdb %d %s %s %s", p, name, kind, acl)
-			g.add("createdb %d %s %s %s", p, name, kind, acl)            // again: refused
-			g.add("createdb %d %s %s %s overwrite", p, name, kind, acl)  // unless overwrite
+			g.add("createdb %d %s %s %s", p, name, kind, acl)           // again: refused
+			g.add("createdb %d %s %s %s overwrite", p, name, kind, acl) // unless overwrite
 			g.add("openlast %d", q)
 			g.add("openlast %d localonly", q)
 			g.add("openlast %d localonly", p)
